@@ -181,7 +181,7 @@ def install_gate(root, rfd, wfd, contended):
             if data is None:
                 g.outcome(err=None, data=None)
             else:
-                g.outcome(err=None, data=base64.b64encode(bytes(data)[:4096]).decode(), n=len(data))
+                g.outcome(err=None, data=base64.b64encode(bytes(data)[:1 << 20]).decode(), n=len(data))
 
         def read(self, size=-1):
             g.wait(["read", self._rel])
